@@ -1726,7 +1726,8 @@ where
         let Pat::Ident(name) = &var_declarator.name else {
             return;
         };
-        let Some(Expr::Call(call)) = var_declarator.init.as_deref_mut() else {
+        // parentheses around the call are not printed back, so they must not change the result
+        let Some(Expr::Call(call)) = var_declarator.init.as_deref_mut().map(strip_parens_mut) else {
             return;
         };
         if !self.is_define_component_call(call) {
@@ -1815,6 +1816,13 @@ impl Visit for TypeDeclCollector {
 fn strip_parens(expr: &Expr) -> &Expr {
     match expr {
         Expr::Paren(ParenExpr { expr, .. }) => strip_parens(expr),
+        expr => expr,
+    }
+}
+
+fn strip_parens_mut(expr: &mut Expr) -> &mut Expr {
+    match expr {
+        Expr::Paren(ParenExpr { expr, .. }) => strip_parens_mut(expr),
         expr => expr,
     }
 }
